@@ -4,6 +4,7 @@ import ast
 
 from .absint import text
 from .core import AnalysisError
+from .lift import same_any
 
 HI = 'src/hierarchical_error_estimator.py'
 HH = 'src/h_h2_error_estimator.py'
@@ -198,12 +199,11 @@ def check_hh2(prog, report):
     ok_s = pf is not None and text(pf).replace(' ', '') == \
         'np.linalg.solve(mat_fine,rhs)'
     d = a.get('diff')
-    ok_d = d is not None and text(d).replace(' ', '') in (
-        'Phi_fine-Phi_prolong', 'Phi_prolong-Phi_fine')
+    ok_d = same_any(d, 'Phi_fine - Phi_prolong', 'Phi_prolong - Phi_fine')
     ret = [n for n in ast.walk(fn) if isinstance(n, ast.Return)]
-    ok_e = len(ret) == 1 and text(ret[0].value).replace(' ', '') in (
-        'np.sqrt(diff.T@mat_fine@diff)', 'np.sqrt(diff@mat_fine@diff)',
-        'np.sqrt(diff.T@(mat_fine@diff))')
+    ok_e = len(ret) == 1 and same_any(
+        ret[0].value, 'np.sqrt(diff.T @ mat_fine @ diff)',
+        'np.sqrt(diff.T @ (mat_fine @ diff))')
     report.check(ok_s and ok_d and ok_e, 'R-hier', 'h-h/2 energy norm',
                  fi.where(),
                  'estimate = sqrt(d^T A_fine d) with d = Phi_fine - '
@@ -315,9 +315,13 @@ def check_hier(prog, report):
         if isinstance(s, ast.Assign) and text(
                 s.targets[0]).replace(' ', '') == 'estim_loc[%s]' % k:
             est = text(s.value).replace(' ', '')
-    okest = est in ('abs(rhs_estim-V_estim)**2/scaling_estim',
-                    'abs(V_estim-rhs_estim)**2/scaling_estim',
-                    '(rhs_estim-V_estim)**2/scaling_estim')
+    estn = None
+    for s_ in ploop.body:
+        if isinstance(s_, ast.Assign) and text(
+                s_.targets[0]).replace(' ', '') == 'estim_loc[%s]' % k:
+            estn = s_.value
+    okest = same_any(estn, 'abs(rhs_estim - V_estim)**2 / scaling_estim',
+                     '(rhs_estim - V_estim)**2 / scaling_estim')
     acc = {}
     for s in ast.walk(ploop):
         if isinstance(s, ast.AugAssign) and isinstance(s.op, ast.Add):
@@ -345,15 +349,16 @@ def check_hier(prog, report):
                  construct='HierarchicalErrorEstimator: indicator formula')
     # outputs: (e0 + e2/2, e1 + e2/2)
     out = None
+    oko = False
     for n in ast.walk(fn):
         if isinstance(n, ast.Call) and text(
                 n.func) == 'estims.append' and isinstance(n.args[0],
                                                           ast.Tuple):
             out = [text(x).replace(' ', '') for x in n.args[0].elts]
-    oko = out in (['estim_loc[0]+0.5*estim_loc[2]',
-                   'estim_loc[1]+0.5*estim_loc[2]'],
-                  ['estim_loc[0]+estim_loc[2]/2',
-                   'estim_loc[1]+estim_loc[2]/2'])
+            e_ = n.args[0].elts
+            oko = len(e_) == 2 and same_any(
+                e_[0], 'estim_loc[0] + estim_loc[2] / 2') and same_any(
+                    e_[1], 'estim_loc[1] + estim_loc[2] / 2')
     report.check(oko, 'R-hier', 'hierarchical outputs', fi.where(),
                  'the (time, space) indicators are e_time + e_check/2 and '
                  'e_space + e_check/2; found %s' % out,
